@@ -94,6 +94,7 @@ let () =
     let mfuel = int_of_float (geto "mfuel" 60000.0) in
     let ecap = int_of_float (geto "ecap" 12.0) in
     let msmax = int_of_float (geto "msmax" 400.0) in
+    let mirrors = int_of_float (geto "mirrors" 3.0) in   (* bit 0: pinned shift, bit 1: repaired shift *)
     let scap = int_of_float (geto "scap" 4000.0) in
     let pN = nat_of_int !pn and tRY = nat_of_int !trymax in
     let costsN = List.map n_of_int !costs and avoidN = List.map n_of_int !avoid in
@@ -184,7 +185,8 @@ let () =
                        List.iter (fun s -> Buffer.add_string b (Printf.sprintf " # MS %s" s))
                          (List.sort Stdlib.compare (List.map seq_str out))
                    | Panic -> Buffer.add_string b (Printf.sprintf " # %s panic" tag)
-                   | OutOfFuel -> Buffer.add_string b (Printf.sprintf " # %s fuel" tag)) [("MP", false); ("MF", true)]
+                   | OutOfFuel -> Buffer.add_string b (Printf.sprintf " # %s fuel" tag)) (List.filter (fun (tg, _) -> (tg = "MP" && mirrors land 1 <> 0) || (tg = "MF" && mirrors land 2 <> 0))
+                        [("MP", false); ("MF", true)])
             end;
             walk (i + 1) ies' mes'
         | ie :: _, _ -> Buffer.add_string b (Printf.sprintf " # E %d %d %d misaligned" i ie.ipos ie.ist)
